@@ -574,6 +574,22 @@ def _message_key(r):
     return ast.unparse(r.exc)[:70] if r.exc is not None else "raise"
 
 
+def _loop_sources(node):
+    """dotted names / attribute chains that the iterables of the loops enclosing ``node`` are built from (the items the refusal is checked for)"""
+    out = set()
+    for a in ancestors(node):
+        if isinstance(a, (ast.For,)):
+            for x in ast.walk(a.iter):
+                if isinstance(x, ast.Attribute):
+                    t = ast.unparse(x)
+                    # keep maximal data chains (df.index, self.comps.index), not the method objects hanging off them
+                    if not isinstance(getattr(x, "_parent", None), ast.Call) or getattr(x, "_parent").func is not x:
+                        out.add(t)
+                elif isinstance(x, ast.Name) and not isinstance(getattr(x, "_parent", None), ast.Attribute) and not (isinstance(getattr(x, "_parent", None), ast.Call) and getattr(x, "_parent").func is x):
+                    out.add(x.id)
+    return sorted(out)
+
+
 def validation_sites(repo):
     """[{function, key, error, guards:[[test text, polarity], ...]}] for every raise of a dedicated invalid-input class in the loader modules"""
     from ..core.cfg import guards_of as _g
@@ -586,12 +602,12 @@ def validation_sites(repo):
                     if any(isinstance(p_, ast.ExceptHandler) for p_ in ancestors(r)):
                         continue  # a wrap of another error, not a rule of its own
                     g = [[ast.unparse(t), bool(pol)] for t, pol in branch_guards(r)]
-                    out.append({"function": "%s:%s" % (m, fi.qualname), "key": _message_key(r), "error": ast.unparse(r.exc.func), "guards": g})
+                    out.append({"function": "%s:%s" % (m, fi.qualname), "key": _message_key(r), "error": ast.unparse(r.exc.func), "guards": g, "loop_sources": _loop_sources(r)})
                 elif isinstance(r, ast.Assert) and (m, fi.qualname) in ASSERTING_VALIDATORS:
                     # an assertion of a validator whose AssertionError the caller converts into the dedicated error: refused when the test is false
                     g = [[ast.unparse(r.test), False]] + [[ast.unparse(t), bool(pol)] for t, pol in branch_guards(r)]
                     key = (_first_text(r.msg) if r.msg is not None else None) or _words(ast.unparse(r.test))
-                    out.append({"function": "%s:%s" % (m, fi.qualname), "key": key, "error": ASSERTING_VALIDATORS[(m, fi.qualname)], "guards": g})
+                    out.append({"function": "%s:%s" % (m, fi.qualname), "key": key, "error": ASSERTING_VALIDATORS[(m, fi.qualname)], "guards": g, "loop_sources": _loop_sources(r)})
     return out
 
 
@@ -635,6 +651,14 @@ def r18f(ctx, repo):
             ok = any(B.equivalent(cond_of(c["guards"]), w) for c in cands)
         except (ValueError, SyntaxError):
             ok = any(sorted(map(tuple, c["guards"])) == sorted(map(tuple, want["guards"])) for c in cands)
+        if ok and want.get("loop_sources"):
+            # ... and it is still checked for every item it was checked for: each data source that fed the enclosing loops still feeds them
+            good = [c for c in cands if set(want["loop_sources"]) <= set(c.get("loop_sources", []))]
+            if not good:
+                cur = cands[min(idx, len(cands) - 1)]
+                lost = sorted(set(want["loop_sources"]) - set(cur.get("loop_sources", [])))
+                ctx.fail("R18f", fi, getattr(fi, "node", None), "the refusal `%s...` in %s is no longer checked for the items coming from %s (the loops around it iterated over %s on the reviewed tree, now over %s): those items are not validated any more" % (want["key"][:50], want["function"], lost, want["loop_sources"], cur.get("loop_sources", [])), stmt_text="refusal-domain:%s:%d" % (want["key"][:60], idx))
+                continue
         if ok:
             ctx.ok("R18f", fi, "refusal `%s` under the confirmed condition" % want["key"][:50])
         else:
